@@ -1,4 +1,4 @@
-use std::{collections::HashSet, path::PathBuf};
+use std::path::PathBuf;
 
 use serde_json::Value;
 
@@ -59,26 +59,16 @@ pub fn load_configs_raw(config_files: Vec<PathBuf>, partial_emmyrcs: Option<Vec<
 
     if config_jsons.is_empty() {
         log::info!("No valid config file found.");
-        Value::Object(Default::default())
-    } else if config_jsons.len() == 1 {
-        let first_config = config_jsons.into_iter().next().unwrap_or_else(|| {
-            log::error!("No valid config file found.");
-            Value::Object(Default::default())
-        });
-
-        let flatten_config = FlattenConfigObject::parse(first_config);
-        flatten_config.to_emmyrc()
-    } else {
-        let merge_config =
-            config_jsons
-                .into_iter()
-                .fold(Value::Object(Default::default()), |mut acc, item| {
-                    merge_values(&mut acc, item);
-                    acc
-                });
-        let flatten_config = FlattenConfigObject::parse(merge_config.clone());
-        flatten_config.to_emmyrc()
     }
+
+    // Flatten every file first and merge the flattened forms in load order, so that the flat
+    // ("diagnostics.enable") and the nested spelling of a setting are the same key when a later
+    // file overrides an earlier one.
+    let mut merged = FlattenConfigObject::default();
+    for config_json in config_jsons {
+        merged.merge(FlattenConfigObject::parse(config_json));
+    }
+    merged.to_emmyrc()
 }
 
 pub fn load_configs(config_files: Vec<PathBuf>, partial_emmyrcs: Option<Vec<Value>>) -> Emmyrc {
@@ -87,32 +77,4 @@ pub fn load_configs(config_files: Vec<PathBuf>, partial_emmyrcs: Option<Vec<Valu
         log::error!("Failed to parse config: error: {:?}", err);
         Emmyrc::default()
     })
-}
-
-fn merge_values(base: &mut Value, overlay: Value) {
-    match (base, overlay) {
-        (Value::Object(base_map), Value::Object(overlay_map)) => {
-            for (key, overlay_value) in overlay_map {
-                match base_map.get_mut(&key) {
-                    Some(base_value) => {
-                        merge_values(base_value, overlay_value);
-                    }
-                    None => {
-                        base_map.insert(key, overlay_value);
-                    }
-                }
-            }
-        }
-        (Value::Array(base_array), Value::Array(overlay_array)) => {
-            let mut seen = HashSet::new();
-            base_array.extend(
-                overlay_array
-                    .into_iter()
-                    .filter(|item| seen.insert(item.clone())),
-            );
-        }
-        (base_slot, overlay_value) => {
-            *base_slot = overlay_value;
-        }
-    }
 }
